@@ -394,8 +394,11 @@ def area_grid(transform, shape, latlon=False, unit="m2"):
     if unit == "cell":
         area = np.ones(shape, dtype=np.int32)
     elif latlon:
-        lon, lat = affine_to_coords(transform, shape)
-        area = reggrid_area(lat, lon) / AREA_FACTORS[unit]
+        _, lat = affine_to_coords(transform, shape)
+        ones = np.ones(shape, dtype=np.float32)
+        # resolution from the transform (coordinate differences are undefined for 1xN / Nx1)
+        area = cellarea(lat, transform[0], transform[4])[:, None] * ones
+        area = area / AREA_FACTORS[unit]
     elif not latlon:
         area0 = abs(transform[0] * transform[4]) / AREA_FACTORS[unit]
         area = np.full(shape, area0, dtype=np.float32)
